@@ -246,7 +246,7 @@ def parts(tier):
             name="scene",
             evaluate=evaluate,
             strategy=lambda: strategy(16 if tier == "quick" else 40),
-            budget={"quick": 400, "thorough": 40000},
+            budget={"quick": 400, "thorough": 120000},
             min_nontrivial={"quick": 60, "thorough": 8000},
             summarize=summarize,
         )
@@ -260,7 +260,7 @@ def parts(tier):
                 name="scene-coverage-guided",
                 evaluate=evaluate,
                 strategy=lambda: strategy(16),
-                budget={"thorough": 48000},
+                budget={"thorough": 144000},
                 min_nontrivial={"thorough": 1000},
                 summarize=summarize,
                 fuzz={"instrument": ["sleap_nn.tracking", "sleap_nn.evaluation"], "modules": TRACKING_MODULES + ["sleap_nn.evaluation"]},
